@@ -206,3 +206,59 @@ def custom_store_names(ctx, variant, change):
         ok_raw = bool(np.allclose(cs["rk1"], want_obj["raw_krige"], rtol=1e-10, atol=1e-12))
     ctx.ensure("third-generation=fresh-object-with-the-current-setup", ok)
     ctx.ensure("stored-raw-kriging-field-is-the-current-one", ok_raw)
+
+
+@contract(P, "CondSRF.__call__[ext_drift]/another-external-drift-at-the-same-positions-is-used",
+          params={"second": ["other-drift", "same-drift", "same-values-new-array"], "nug": ["zero"]},
+          functions=["field/cond_srf.py:CondSRF.__call__", "krige/base.py:Krige.__call__", "krige/base.py:Krige._pre_ext_drift"],
+          bounded="native run: external-drift kriging, 3 conditioning points, 3 targets, two generations at the same positions")
+def ext_drift_second_call(ctx, second, nug):
+    """the external drift at the target points is an argument of every generation; a second generation at
+    unchanged positions with ANOTHER drift must use it (equal a fresh object called with that drift)"""
+    import numpy as np
+    import gstools as gs
+    with symrun.native():
+        m = gs.Gaussian(dim=1, len_scale=2.0, var=1.3)
+        cpos, cval, cext = [[0.0, 1.0, 3.0]], [1.0, 2.0, 0.5], [0.1, 0.5, -0.3]
+
+        def mk():
+            return gs.CondSRF(gs.krige.ExtDrift(m, cpos, cval, cext), seed=3, mode_no=8)
+        pos = [[0.5, 1.5, 2.5]]
+        d1 = np.array([1.0, 2.0, 3.0])
+        d2 = {"other-drift": np.array([-1.0, 0.0, 4.0]), "same-drift": d1, "same-values-new-array": d1.copy()}[second]
+        cs = mk()
+        cs(pos, ext_drift=d1)
+        got = np.array(cs(ext_drift=d2, seed=5), dtype=float)
+        want = np.array(mk()(pos, ext_drift=d2, seed=5), dtype=float)
+        ok = got.shape == want.shape and bool(np.allclose(got, want, rtol=1e-10, atol=1e-12))
+    ctx.ensure("second-generation=fresh-object-with-the-drift-passed-now", ok)
+
+
+@contract(P, "Krige.set_condition[refresh]/the-object-owns-its-conditions",
+          params={"what": ["cond_pos", "cond_val", "ext_drift", "cond_err"], "refresh": ["set_condition()", "model-assign"]},
+          functions=["krige/base.py:Krige.set_condition", "krige/base.py:Krige._pre_ext_drift", "krige/base.py:Krige.cond_err",
+                     "krige/tools.py:set_condition"],
+          bounded="native run: external-drift kriging with per-point measurement errors, 3 conditioning points; the caller "
+                  "overwrites one of its float64 arrays after construction")
+def krige_owns_conditions(ctx, what, refresh):
+    """conditions, external drift at the conditions and measurement errors given at construction are settings of the
+    object: after the caller reuses its own array buffers, the documented refresh must reproduce the same results
+    (the object keeps copies, not views)"""
+    import numpy as np
+    import gstools as gs
+    with symrun.native():
+        m = gs.Gaussian(dim=1, len_scale=2.0, var=1.3, nugget=0.1)
+        arrs = {"cond_pos": np.array([[0.0, 1.0, 3.0]]), "cond_val": np.array([1.0, 2.0, 0.5]),
+                "ext_drift": np.array([0.1, 0.5, -0.3]), "cond_err": np.array([0.1, 0.2, 0.3])}
+        k = gs.krige.ExtDrift(m, arrs["cond_pos"], arrs["cond_val"], arrs["ext_drift"], cond_err=arrs["cond_err"])
+        pos, d = [[0.5, 1.5, 2.5]], [1.0, 2.0, 3.0]
+        f1, v1 = k(pos, ext_drift=d)
+        f1, v1 = np.array(f1), np.array(v1)
+        arrs[what][...] = arrs[what] * 3.0 + 0.7            # the caller reuses its buffer
+        if refresh == "set_condition()":
+            k.set_condition()
+        else:
+            k.model = gs.Gaussian(dim=1, len_scale=2.0, var=1.3, nugget=0.1)
+        f2, v2 = k(pos, ext_drift=d)
+        ok = bool(np.allclose(f1, f2, rtol=1e-10, atol=1e-12) and np.allclose(v1, v2, rtol=1e-10, atol=1e-12))
+    ctx.ensure("results-after-refresh=results-before", ok)
